@@ -15,6 +15,7 @@ import (
 	"net/url"
 	"sort"
 	"strings"
+	"time"
 
 	"github.com/ipfs/go-cid"
 	"github.com/ipld/go-ipld-prime/datamodel"
@@ -606,8 +607,10 @@ func init() {
 		framings := map[string]int{}
 		direct := []map[string]any{}
 		for i, rp := range replies {
+			stopWatch := bytesWatchdog(fmt.Sprintf("reply %d (%s)", i, rp.Label), 90*time.Second)
 			obs := runClient(rp, invs, service)
 			bset.observe(i, rp)
+			stopWatch()
 			if len(obs.Panics) > 0 {
 				pr := panicRec{Reply: i, Label: rp.Label, Panics: obs.Panics}
 				if rp.Raw != nil {
